@@ -92,8 +92,12 @@ package runtime
 //@ ensures [C15:once] calls(WW) <= 1 && (calls(WW) == 1 ==> recv(WW,0) == writer && result == ret(WW,0,1))
 //@ ensures [C15:json] calls(WJ) == 1 && ret(WJ,0,1) != nil ==> result == ret(WJ,0,1) && calls(WW) == 0
 //@ ensures [C15:jsonbytes] calls(WJ) == 1 && ret(WJ,0,1) == nil ==> calls(WW) == 1 && arg(WW,0,0) == ret(WJ,0,0)
+// an error or Stringer source: its text goes to the writer byte for byte, in one Write
+//@ ensures [C15:errortext] writer != nil && data != nil && !implements(data, "encoding.TextMarshaler") && implements(data, "error") ==> calls(ER) == 1 && recv(ER,0) == data && calls(WW) == 1 && len(arg(WW,0,0)) == len(ret(ER,0,0)) && (forall k int :: 0 <= k && k < len(ret(ER,0,0)) ==> before(WW, arg(WW,0,0)[k]) == ret(ER,0,0)[k])
+//@ ensures [C15:stringertext] writer != nil && data != nil && !implements(data, "encoding.TextMarshaler") && !implements(data, "error") && implements(data, "fmt.Stringer") ==> calls(ST) == 1 && recv(ST,0) == data && calls(WW) == 1 && len(arg(WW,0,0)) == len(ret(ST,0,0)) && (forall k int :: 0 <= k && k < len(ret(ST,0,0)) ==> before(WW, arg(WW,0,0)[k]) == ret(ST,0,0)[k])
 //@ watch IND = call reflect.Indirect
 //@ watch VS = call (reflect.Value).String
+//@ ensures [C15:stringtext] plainText() && rvValid(ret(IND,0,0)) && rvKind(ret(IND,0,0)) == 24 ==> len(arg(WW,0,0)) == len(ret(VS,0,0)) && (forall k int :: 0 <= k && k < len(ret(VS,0,0)) ==> before(WW, arg(WW,0,0)[k]) == ret(VS,0,0)[k])
 //@ spec plainText() := writer != nil && data != nil && !implements(data, "encoding.TextMarshaler") && !implements(data, "error") && !implements(data, "fmt.Stringer")
 //@ ensures [C15:textkinds] plainText() ==> calls(IND) == 1 && (!rvValid(ret(IND,0,0)) ==> result != nil && calls(WW) == 0 && calls(WJ) == 0) && (rvValid(ret(IND,0,0)) && (rvKind(ret(IND,0,0)) == 25 || rvKind(ret(IND,0,0)) == 23) ==> calls(WJ) == 1 && arg(WJ,0,0) == data && calls(VS) == 0) && (rvValid(ret(IND,0,0)) && rvKind(ret(IND,0,0)) == 24 ==> calls(WJ) == 0 && calls(VS) == 1 && arg(VS,0,0) == ret(IND,0,0) && calls(WW) == 1) && (rvValid(ret(IND,0,0)) && rvKind(ret(IND,0,0)) != 25 && rvKind(ret(IND,0,0)) != 23 && rvKind(ret(IND,0,0)) != 24 ==> result != nil && calls(WW) == 0 && calls(WJ) == 0)
 
@@ -320,6 +324,9 @@ package runtime
 //@ ensures [C16:writeropts] calls(NWR) <= 1 && (calls(NWR) == 1 ==> calls(AW) == 1 && arg(AW,0,1) == ret(NWR,0,0))
 //@ watch INDC = call reflect.Indirect
 //@ ensures [C16:recordsdest] calls(PC) == 1 && calls(INDC) == 1 && ret(PC,0,0) == nil ==> calls(VSET) == 1
+//@ watch MS = call reflect.MakeSlice
+// the destination table is replaced by a new table of exactly as many rows as records were piped (nothing it held before survives)
+//@ ensures [C16:recordsexact] calls(VSET) == 1 ==> calls(MS) == 1 && arg(VSET,0,1) == ret(MS,0,0) && arg(RCP,0,0) == ret(MS,0,0) && arg(MS,0,1) == arg(MS,0,2) && arg(MS,0,1) == after(PC, 3, len(csvWriter.records))
 //@ ensures [C16:recordscopied] calls(VSET) <= 1 && (calls(VSET) == 1 ==> calls(RCP) == 1 && arg(RCP,0,0) == arg(VSET,0,1) && calls(PC) == 1 && ret(PC,0,0) == nil && result == nil)
 
 //@ func CSVProducer$1
